@@ -190,6 +190,8 @@ func VerifC02_UnzipStaysInside() {
 	fs := NewVirtualFileSystem(rec, InMemoryFS, IdentityPathConverterFunc)
 	verif.Assert("setup", fs.MkDir("/src") == nil && fs.MkDir("/out") == nil && fs.WriteFile("/src/a.zip", archive, 0o644) == nil)
 	verif.Assert("setup", fs.WriteFile("/out/keep", []byte("k"), 0o644) == nil)
+	// a sibling whose name has the destination's name as a prefix
+	verif.Assert("setup", fs.MkDir("/out/d2") == nil && fs.WriteFile("/out/d2/keep", []byte("k2"), 0o644) == nil)
 	before := vSnapshot(rec.inner, "/out")
 	rec.reset()
 	const dest = "/out/d"
@@ -197,7 +199,11 @@ func VerifC02_UnzipStaysInside() {
 	if nested {
 		limits = DefaultLimits()
 	}
-	_, err := fs.UnzipWithContextAndLimits(context.Background(), "/src/a.zip", dest, limits)
+	given := dest
+	if len(entries) == 1 && verif.Bool("trailingSeparator") {
+		given = dest + "/"
+	}
+	_, err := fs.UnzipWithContextAndLimits(context.Background(), "/src/a.zip", given, limits)
 	for _, op := range rec.mutations() {
 		verif.Assert("mutations_stay_inside_destination", vPathInside(dest, filepath.Clean(op.path)))
 		if op.path2 != "" {
